@@ -260,3 +260,42 @@ theorem walk_no_panic (ks : Nat) : ∀ (fuel n : Nat) (cell : Cell) (path : List
                     · exact ih _ r0 _ _ _ _ (noSingleRefL_get refs 0 r0 hkids hr0)
 
 end Tongo.MerkleLemmas
+
+namespace Tongo.MerkleLemmas
+open Tongo.Merkle
+
+/-- the fuel `proveKey` gives the loop of `ProveKeyInHashmap` is never exhausted: with more fuel than remaining key
+bits the loop does not end in the artificial `err "fuel"` (every iteration consumes at least one key bit) -/
+theorem walk_fuel (ks : Nat) : ∀ (fuel n : Nat) (cell : Cell) (path : List Nat) (key pfx : List Bool)
+    (pruned : List (List Nat)), n < fuel → walk ks fuel n cell path key pfx pruned ≠ .err "fuel" := by
+  intro fuel
+  induction fuel with
+  | zero => intro n _ _ _ _ _ h; omega
+  | succ fuel ih =>
+    intro n cell path key pfx pruned hn
+    rw [walk]
+    split
+    · simp
+    · split
+      · simp
+      · simp only []
+        split
+        · simp
+        · rename_i hnl
+          split
+          · simp
+          · split
+            · simp
+            · split
+              · simp
+              · split
+                · simp
+                · split
+                  · split
+                    · simp
+                    · exact ih _ _ _ _ _ _ (by omega)
+                  · split
+                    · simp
+                    · exact ih _ _ _ _ _ _ (by omega)
+
+end Tongo.MerkleLemmas
